@@ -1,5 +1,5 @@
 \* link archives with the verdict of the model under "links materialised behind a lexical guard"
-CONSTANTS TitleClean = "rooted" ExtractGuard = "reroot" LinkPolicy = "lexical" DeleteValidates = TRUE MaxFull = 1 MaxCore = 1
+CONSTANTS TitleClean = "rooted" ExtractGuard = "reroot" Whiteout = "none" LinkPolicy = "lexical" DeleteValidates = TRUE MaxFull = 1 MaxCore = 1
   Eps = {"lnk"}
 CONSTANT WithVerdict = TRUE
 INIT Init
